@@ -1,6 +1,6 @@
 # C20: (1) hessian has the wrong sign on its second-order term, visible on a model WITHOUT mixed state-parameter terms;
 # (2) a vector of per-observation weights for a single observed state makes gradient/jtj/hessian raise;
-# (3) known finding: mixed terms missing (SIR).     Run: PYTHONPATH=<repo>/src python findings/C20_demo.py
+# (3) mixed terms missing (SIR) - repaired later (findings/C20_hessian_mixed_terms_demo.py).     Run: PYTHONPATH=<repo>/src python findings/C20_demo.py
 import warnings; warnings.filterwarnings('ignore')
 import numpy as np
 from pygom import SimulateOde, Transition, SquareLoss, common_models
